@@ -27,6 +27,20 @@ package c06
 // truthful oldest-first answers, a minute passes whenever the configuration repeats) must make the local chain equal
 // the source's and keep it equal; that run decides every state whose default continuation enters the cycle.
 //
+// Pre-confirmed polling (configurations with poll > 0; production default 500 ms): the Synchronizer is constructed with
+// a non-zero pre-confirmed poll interval, so the real preconfirmed.Poller runs on the sync STREAM context and takes
+// part in every stream reset (syncBlocks waits for it) and in the shutdown. Its ticker is virtual time ('a' = one poll
+// interval passes; the minute advance 'A' contains 120 of them), its data-source calls (PreConfirmedBlockLatest /
+// PreConfirmedBlockByNumber) park like all the others and are answered truthfully (the source offers an EMPTY
+// pre-confirmed block on top of its current tip: full block, or "no change" when the poller already has it) or with an
+// error. Those configurations also enumerate ONE injected database commit failure ('F': the commit of the next Store of
+// a block returns an error and applies nothing; storefault_test.go).
+//
+// Shutdown: EVERY replay ends by cancelling the context of Run at the quiescent point it reached (so shutdown is
+// exercised at every explored state, polling enabled or not); Run must return without more than shutdownHorizon of
+// virtual time passing, else "sync-does-not-stop". Such a state is reported and not expanded further (the bubble of a
+// Synchronizer that does not stop cannot be torn down: the worker process is replaced).
+//
 // Build seam: prebuild.sh (conc/stream's process-wide channel pool cannot be shared between bubbles).
 // Reproduction aid: trace_test.go (VERIF_C06_TRACE_CFG / VERIF_C06_TRACE_PATH).
 //
@@ -62,6 +76,7 @@ import (
 	"github.com/NethermindEth/juno/db"
 	"github.com/NethermindEth/juno/starknet"
 	jsync "github.com/NethermindEth/juno/sync"
+	"github.com/NethermindEth/juno/sync/preconfirmed"
 	"github.com/NethermindEth/juno/utils/log"
 )
 
@@ -214,6 +229,8 @@ type evt struct {
 	V uint8 // variant
 	// 'H' arm a hold on the next listener callback (O = class, H = height): the callback parks when it happens;
 	// 'U' let the parked listener callback (O = class, H = height) return
+	// 'a' advance time by one pre-confirmed poll interval; 'F' the database commit of the next Store fails
+	// request origins of the pre-confirmed poller: 'c' PreConfirmedBlockLatest, 'n' PreConfirmedBlockByNumber(H)
 }
 
 // listener callback classes (the official sync.EventListener seam)
@@ -251,6 +268,10 @@ func (e evt) String() string {
 			return fmt.Sprintf("block(%d)@fetcher", e.H)
 		case 'r':
 			return fmt.Sprintf("block(%d)@revertTask", e.H)
+		case 'c':
+			return "preconfirmed-latest@poller"
+		case 'n':
+			return fmt.Sprintf("preconfirmed(%d)@poller", e.H)
 		}
 		return "?"
 	}
@@ -272,6 +293,10 @@ func (e evt) String() string {
 		return fmt.Sprintf("source-step(fork=%d,new=%d)", e.H, e.V)
 	case 'A':
 		return "advance-1min"
+	case 'a':
+		return "advance-poll-interval"
+	case 'F':
+		return "next-store-commit-fails"
 	case 'H':
 		return fmt.Sprintf("hold-next %s,%d)", listenerName[e.O], e.H)
 	case 'U':
@@ -300,6 +325,10 @@ func (e evt) kindLabel() string {
 		return "source-step"
 	case 'A':
 		return "advance"
+	case 'a':
+		return "advance-poll-interval"
+	case 'F':
+		return "db-commit-fault"
 	case 'H':
 		return "hold-listener"
 	case 'U':
@@ -315,12 +344,21 @@ type config struct {
 	steps    int  // number of source steps (reorg / growth) the explorer may fire
 	maxLen   int  // maximum source length
 	variants []int
-	holds    []byte // listener callback classes the explorer may hold
-	k        int    // deviation bound
+	holds    []byte        // listener callback classes the explorer may hold
+	k        int           // deviation bound
+	poll     time.Duration // pre-confirmed poll interval given to sync.New (0 = polling disabled)
+	dbFaults int           // number of database commit failures the explorer may inject
 }
 
 func (c *config) String() string {
-	return fmt.Sprintf("n0=%d workers=%d newState=%v source-steps=%d maxLen=%d listener-holds=%q", c.n0, c.workers, c.newState, c.steps, c.maxLen, string(c.holds))
+	s := fmt.Sprintf("n0=%d workers=%d newState=%v source-steps=%d maxLen=%d listener-holds=%q", c.n0, c.workers, c.newState, c.steps, c.maxLen, string(c.holds))
+	if c.poll > 0 {
+		s += fmt.Sprintf(" preconfirmed-poll=%v", c.poll)
+	}
+	if c.dbFaults > 0 {
+		s += fmt.Sprintf(" db-commit-faults=%d", c.dbFaults)
+	}
+	return s
 }
 
 // ---------------------------------------------------------------------------------------------------------------
@@ -330,12 +368,16 @@ type reply struct {
 	err error
 	cb  jsync.CommittedBlock
 	hdr *core.Header
+	upd starknet.PreConfirmedUpdate // pre-confirmed poller requests
+	num uint64
 }
 
 type req struct {
-	origin byte // 'p','v','f','r' data-source calls; 'L' parked listener callback
+	origin byte // 'p','v','f','r','c','n' data-source calls; 'L' parked listener callback
 	op     byte // listener class for origin 'L'
 	h      uint64
+	ident  string // 'c','n': the block identifier / transaction count the poller says it already has
+	txc    uint64
 	ctx    context.Context
 	reply  chan reply
 	seq    int
@@ -351,6 +393,7 @@ func (r *req) code() string {
 type source struct {
 	calls chan *req
 	infra atomic.Value
+	poll  bool // pre-confirmed polling enabled: the poller's calls are environment events
 }
 
 var errScripted = errors.New("scripted source failure")
@@ -400,14 +443,22 @@ func (s *source) BlockHeaderLatest(ctx context.Context) (*core.Header, error) {
 	return rp.hdr, rp.err
 }
 
-func (s *source) PreConfirmedBlockByNumber(context.Context, uint64, string, uint64) (starknet.PreConfirmedUpdate, error) {
-	s.infra.Store("unexpected PreConfirmedBlockByNumber call")
-	return nil, errScripted
+func (s *source) PreConfirmedBlockByNumber(ctx context.Context, n uint64, ident string, txc uint64) (starknet.PreConfirmedUpdate, error) {
+	if !s.poll {
+		s.infra.Store("unexpected PreConfirmedBlockByNumber call")
+		return nil, errScripted
+	}
+	rp := s.do(ctx, &req{origin: 'n', h: n, ident: ident, txc: txc})
+	return rp.upd, rp.err
 }
 
-func (s *source) PreConfirmedBlockLatest(context.Context, string, uint64) (starknet.PreConfirmedUpdate, uint64, error) {
-	s.infra.Store("unexpected PreConfirmedBlockLatest call")
-	return nil, 0, errScripted
+func (s *source) PreConfirmedBlockLatest(ctx context.Context, ident string, txc uint64) (starknet.PreConfirmedUpdate, uint64, error) {
+	if !s.poll {
+		s.infra.Store("unexpected PreConfirmedBlockLatest call")
+		return nil, 0, errScripted
+	}
+	rp := s.do(ctx, &req{origin: 'c', ident: ident, txc: txc})
+	return rp.upd, rp.num, rp.err
 }
 
 func (s *source) Class(context.Context, *felt.Felt) (core.ClassDefinition, error) {
@@ -498,13 +549,11 @@ func (d *snData) StateUpdate(context.Context, uint64) (*core.StateUpdate, error)
 	d.src.infra.Store("unexpected StarknetData.StateUpdate call")
 	return nil, errScripted
 }
-func (d *snData) PreConfirmedBlockByNumber(context.Context, uint64, string, uint64) (starknet.PreConfirmedUpdate, error) {
-	d.src.infra.Store("unexpected PreConfirmedBlockByNumber call")
-	return nil, errScripted
+func (d *snData) PreConfirmedBlockByNumber(ctx context.Context, n uint64, ident string, txc uint64) (starknet.PreConfirmedUpdate, error) {
+	return d.src.PreConfirmedBlockByNumber(ctx, n, ident, txc)
 }
-func (d *snData) PreConfirmedBlockLatest(context.Context, string, uint64) (starknet.PreConfirmedUpdate, uint64, error) {
-	d.src.infra.Store("unexpected PreConfirmedBlockLatest call")
-	return nil, 0, errScripted
+func (d *snData) PreConfirmedBlockLatest(ctx context.Context, ident string, txc uint64) (starknet.PreConfirmedUpdate, uint64, error) {
+	return d.src.PreConfirmedBlockLatest(ctx, ident, txc)
 }
 
 // ---------------------------------------------------------------------------------------------------------------
@@ -584,6 +633,14 @@ type world struct {
 	nseq   int
 	log    []obs
 	exited bool
+
+	// pre-confirmed polling / database faults
+	faultsFired  int             // database commit failures injected so far
+	faultArmed   bool            // the next commit will fail
+	tickBuffered bool            // model of the poller's ticker: a tick fired while the poller was parked in a data-source call
+	streamProbe  context.Context // context of a fetcher request of the current stream (Done = that stream is over)
+	pollerMain   bool            // model: the poller of the current stream has left its wait-for-genesis loop
+	hung         bool            // Run did not return after its context was cancelled
 
 	// monitor state
 	headHeight int64 // -1 = empty
@@ -675,6 +732,9 @@ func (w *world) observe() {
 	for _, r := range w.out {
 		if r.ctx.Err() != nil {
 			w.stats["requests_cancelled"]++
+			if r.origin == 'c' || r.origin == 'n' {
+				w.tickBuffered = false // that poller is gone; the next stream starts a new one with a new ticker
+			}
 			continue
 		}
 		if seen[r.code()] {
@@ -684,6 +744,44 @@ func (w *world) observe() {
 		live = append(live, r)
 	}
 	w.out = live
+	// Model of the poller's control state, which is not visible from outside but decides what the next tick does: every
+	// stream (re)start launches a new poller, which waits in its wait-for-genesis loop iff the chain is empty at that
+	// moment and leaves it with the first tick that finds a block. A stream start is recognised by a fetcher request
+	// arriving after the context of the previous stream's requests was cancelled (syncBlocks issues one at once).
+	if w.c.poll > 0 {
+		if w.streamProbe == nil || w.streamProbe.Err() != nil {
+			w.streamProbe = nil
+			for _, r := range w.out {
+				if r.origin == 'f' {
+					w.streamProbe = r.ctx
+					h, _ := w.readHead()
+					w.pollerMain = h >= 0
+					w.tickBuffered = false
+					w.stats["streams_started"]++
+					break
+				}
+			}
+		} else if (w.last.K == 'a' || w.last.K == 'A') && !w.pollerMain {
+			if h, _ := w.readHead(); h >= 0 {
+				w.pollerMain = true
+			}
+		}
+	}
+	// Model of the other hidden bit of the poller (the buffer of its ticker channel). Time only advances by explorer
+	// events, and never while a poller request is outstanding, except inside the minute advance: if the first of its
+	// 120 ticks parks the poller in a data-source call, a later one stays buffered and the poller polls again as soon
+	// as the current poll is over. A new 'latest' request is the start of a new poll (the buffered tick is consumed).
+	pcLatest, pcAny := false, false
+	for _, r := range w.out {
+		pcLatest = pcLatest || r.origin == 'c'
+		pcAny = pcAny || r.origin == 'c' || r.origin == 'n'
+	}
+	switch {
+	case w.last.K == 'A' && pcAny:
+		w.tickBuffered = true
+	case (w.last.O == 'c' || w.last.O == 'n') && (pcLatest || !pcAny):
+		w.tickBuffered = false
+	}
 	select {
 	case <-w.done:
 		w.exited = true
@@ -735,7 +833,7 @@ func (w *world) enabled() (evs []evt, costs []uint8) {
 	for _, p := range w.parked {
 		add(evt{K: 'U', O: p.op, H: uint8(p.h)}, 0)
 	}
-	pollOutstanding := false
+	pollOutstanding, pcOutstanding := false, false
 	for i, r := range w.out {
 		var def uint8 = 1
 		if i == 0 {
@@ -745,6 +843,9 @@ func (w *world) enabled() (evs []evt, costs []uint8) {
 		add(evt{K: 'T', O: o, H: h}, def)
 		if o == 'p' {
 			pollOutstanding = true
+		}
+		if o == 'c' || o == 'n' {
+			pcOutstanding = true
 		}
 	}
 	if len(w.out) == 0 {
@@ -764,6 +865,12 @@ func (w *world) enabled() (evs []evt, costs []uint8) {
 					seen[v] = true
 					add(evt{K: 'S', O: o, H: h, V: uint8(i + 1)}, 1)
 				}
+			}
+		case 'c', 'n':
+			// the pre-confirmed poller: truth (above) or an error (for 'n' below / above the source's pre-confirmed
+			// height the truth already is one)
+			if o == 'c' || int(r.h) == len(cur) {
+				add(evt{K: 'E', O: o, H: h}, 1)
 			}
 		case 'f', 'r':
 			if int(r.h) < len(cur) {
@@ -788,8 +895,28 @@ func (w *world) enabled() (evs []evt, costs []uint8) {
 			}
 		}
 	}
-	if len(w.out) > 0 && !pollOutstanding {
+	// time never advances while a ticker-driven request (pollLatest, pre-confirmed poller) is outstanding: the state of
+	// the ticker's buffer would be a hidden variable
+	if len(w.out) > 0 && !pollOutstanding && !pcOutstanding {
 		add(evt{K: 'A'}, 1)
+	}
+	if w.c.poll > 0 && !pcOutstanding {
+		// one pre-confirmed poll interval passes (the poller's ticker fires once). While the node only waits for blocks
+		// the source does not have yet, time passing is part of the benign schedule (cost 0); anywhere else it means
+		// that the outstanding answers are slow (cost 1).
+		var cost uint8
+		for _, r := range w.out {
+			if r.origin != 'f' || int(r.h) < len(cur) {
+				cost = 1
+			}
+		}
+		if len(w.out) == 0 || len(w.parked) > 0 {
+			cost = 1
+		}
+		add(evt{K: 'a'}, cost)
+	}
+	if w.faultsFired < w.c.dbFaults && !w.faultArmed {
+		add(evt{K: 'F'}, 1) // the database commit of the next Store of a block fails
 	}
 	// hold the next callback of a listener class at a height (one deviation; at most one hold armed or parked at a time)
 	if len(w.armed) == 0 && len(w.parked) == 0 {
@@ -853,6 +980,23 @@ func (w *world) apply(e evt) bool {
 		w.stats["time_advances"]++
 		time.Sleep(time.Minute)
 		return true
+	case 'a':
+		if w.c.poll == 0 {
+			return false
+		}
+		w.stats["poll_interval_advances"]++
+		time.Sleep(w.c.poll)
+		return true
+	case 'F':
+		if w.faultsFired >= w.c.dbFaults || w.faultArmed {
+			return false
+		}
+		w.faultsFired++
+		w.mu.Lock()
+		w.faultArmed = true // storeFaultDB fails the commit of the next Store of a block
+		w.mu.Unlock()
+		w.stats["db_commit_faults_armed"]++
+		return true
 	case 'R':
 		if w.fired >= w.c.steps || int(e.H) > len(cur) || e.V == 0 {
 			return false
@@ -896,6 +1040,19 @@ func (w *world) apply(e evt) bool {
 	w.remove(r)
 	latest := e.O == 'p' || e.O == 'v'
 	var rp reply
+	if e.O == 'c' || e.O == 'n' {
+		switch e.K {
+		case 'T':
+			rp = w.preConfirmedTruth(r)
+		case 'E':
+			rp.err = errScripted
+		default:
+			return false
+		}
+		w.stats["preconfirmed_answers_"+e.kindLabel()]++
+		r.reply <- rp
+		return true
+	}
 	switch e.K {
 	case 'T':
 		switch {
@@ -947,6 +1104,30 @@ func (w *world) apply(e evt) bool {
 	}
 	r.reply <- rp
 	return true
+}
+
+// preConfirmedTruth: the source offers an EMPTY pre-confirmed block on top of its current tip (number = length of its
+// chain), identified by the chain it extends. A poller that already holds it is told "no change"; a request by number
+// for any other height fails (that block is committed, or does not exist yet).
+func (w *world) preConfirmedTruth(r *req) (rp reply) {
+	cur := w.cur()
+	if r.origin == 'n' && int(r.h) != len(cur) {
+		rp.err = errNotFound
+		return rp
+	}
+	ident := "preconfirmed-on-" + cur
+	rp.num = uint64(len(cur))
+	if r.ident == ident {
+		rp.upd = starknet.PreConfirmedNoChange{}
+		w.stats["preconfirmed_no_change"]++
+		return rp
+	}
+	tip := getBlk(cur).e.Block.Header
+	price := func() *starknet.GasPrice { return &starknet.GasPrice{PriceInWei: chain.F(1), PriceInFri: chain.F(1)} }
+	rp.upd = starknet.PreConfirmedBlock{BlockIdentifier: ident, Status: "PRE_CONFIRMED", Timestamp: tip.Timestamp + 1, Version: protoVersion,
+		SequencerAddress: chain.F(0x5E0), L1GasPrice: price(), L2GasPrice: price(), L1DataGasPrice: price(), L1DAMode: starknet.Blob}
+	w.stats["preconfirmed_blocks_served"]++
+	return rp
 }
 
 func (w *world) serveBlock(r *req, rp *reply, name string, variant int) {
@@ -1012,6 +1193,10 @@ func (w *world) monitor() {
 			lstore++
 		case 'r':
 			lreorg++
+		case 'x':
+			// the injected failure of a Store's commit: nothing was applied (the head cannot have moved)
+			w.stats["db_store_commits_failed"]++
+			w.moved += "X"
 		case 'c':
 			switch {
 			case o.height == w.headHeight+1:
@@ -1262,6 +1447,23 @@ func (w *world) describe() string {
 	if len(w.pendHeads) > 0 || len(w.pendReorgs) > 0 {
 		fmt.Fprintf(&b, "unannounced:%d/%d ", len(w.pendHeads), len(w.pendReorgs))
 	}
+	if w.c.poll > 0 {
+		for _, r := range w.out {
+			if r.origin == 'c' || r.origin == 'n' {
+				fmt.Fprintf(&b, "poller-has:%q/%d ", r.ident, r.txc)
+			}
+		}
+		fmt.Fprintf(&b, "preconfirmed:%s ", w.preConfirmedStored())
+		if w.streamProbe != nil && !w.pollerMain {
+			b.WriteString("poller-waits-for-genesis ")
+		}
+		if w.tickBuffered {
+			b.WriteString("poller-tick-buffered ")
+		}
+	}
+	if w.c.dbFaults > 0 {
+		fmt.Fprintf(&b, "db-faults-left=%d armed=%v ", w.c.dbFaults-w.faultsFired, w.faultArmed)
+	}
 	b.WriteString("| held:")
 	hs := make([]string, 0, len(w.held))
 	for _, s := range w.held {
@@ -1277,6 +1479,25 @@ func (w *world) describe() string {
 		b.WriteString(" | exited")
 	}
 	return b.String()
+}
+
+// preConfirmedStored renders the Synchronizer's pre-confirmed chain storage (state key only): number and identifier
+// of every stored entry, oldest first.
+func (w *world) preConfirmedStored() string {
+	f := reflect.ValueOf(w.syn).Elem().FieldByName("preConfirmed")
+	cs := *(**preconfirmed.ChainStorage)(unsafe.Pointer(f.UnsafeAddr()))
+	for n := uint64(0); n <= uint64(w.c.maxLen)+1; n++ {
+		snap := cs.SnapshotForBlock(n)
+		if snap.Length() == 0 {
+			continue
+		}
+		var parts []string
+		for pc := range snap.OldestFirst() {
+			parts = append(parts, fmt.Sprintf("%d=%s/%d", pc.Block.Number, pc.BlockIdentifier, len(pc.Block.Transactions)))
+		}
+		return strings.Join(parts, ",")
+	}
+	return "-"
 }
 
 func h16(s string) [16]byte {
@@ -1302,9 +1523,14 @@ type result struct {
 	// convergence runs
 	conv      bool
 	convSteps int
+	hung      bool // Run did not return after the final shutdown: the bubble was abandoned (see replay)
 }
 
 const convHorizon = 200
+
+// shutdownHorizon is the virtual time Run is given to return after its context has been cancelled (nothing in the
+// Synchronizer needs any time to pass for that; 10 minutes = 10 ticks of pollLatest / 1200 ticks of the poller).
+const shutdownHorizon = 10 * time.Minute
 
 func setChan(sub any, ch any) {
 	// feed.Subscription[T].c is replaced by a large-buffer channel before the synchronizer starts: feed.Send is
@@ -1314,16 +1540,44 @@ func setChan(sub any, ch any) {
 	reflect.NewAt(f.Type(), unsafe.Pointer(f.UnsafeAddr())).Elem().Set(reflect.ValueOf(ch))
 }
 
-func replay(t *testing.T, c *config, path []evt, converge bool) (res result) {
+// replay executes one path in a fresh bubble. The bubble runs in its own goroutine: when Run does not return after the
+// final shutdown, the bubble can never be torn down (synctest.Test waits for every goroutine of the bubble), so the
+// result is handed out and the bubble is abandoned with its root goroutine blocked on a channel from OUTSIDE the
+// bubble (not a durable block: virtual time stops, nothing spins); the caller (worker process) retires after such a
+// result.
+func replay(t *testing.T, c *config, path []evt, converge bool) result {
 	prev := runtime.GOMAXPROCS(c.workers)
 	defer runtime.GOMAXPROCS(prev)
+	var res result
+	finished, abandoned, never := make(chan struct{}), make(chan struct{}), make(chan struct{})
+	go func() {
+		defer close(finished)
+		replayInBubble(t, c, path, converge, &res, abandoned, never)
+	}()
+	select {
+	case <-finished:
+	case <-abandoned:
+	}
+	return res
+}
+
+func replayInBubble(t *testing.T, c *config, path []evt, converge bool, out *result, abandoned, never chan struct{}) {
 	synctest.Test(t, func(t *testing.T) {
+		var res result
 		w := &world{c: c, versions: []string{strings.Repeat("0", c.n0)}, headHeight: -1, stats: map[string]int64{}, armed: map[string]bool{}}
 		w.fdb = faultdb.New()
-		w.bc = chain.NewNode(w.fdb, c.newState)
-		w.src = &source{calls: make(chan *req, 256)}
+		var kv db.KeyValueStore = w.fdb
+		if c.dbFaults > 0 {
+			kv = &storeFaultDB{DB: w.fdb, w: w}
+		}
+		w.bc = chain.NewNode(kv, c.newState)
+		w.src = &source{calls: make(chan *req, 256), poll: c.poll > 0}
 		cbHeight, cbHash := int64(-1), felt.Zero
 		w.fdb.OnCommit(func(cm faultdb.Commit) {
+			if cm.Failed {
+				w.infra = "a commit failed that the harness did not make fail"
+				return
+			}
 			h, hash := w.readHead()
 			if h == cbHeight && hash == cbHash {
 				w.stats["commits_not_moving_head"]++
@@ -1340,7 +1594,7 @@ func replay(t *testing.T, c *config, path []evt, converge bool) (res result) {
 			w.log = append(w.log, o)
 			w.mu.Unlock()
 		})
-		w.syn = jsync.New(w.bc, viaFeeder{jsync.NewFeederGatewayDataSource(w.bc, &snData{src: w.src, cls: map[felt.Felt]core.ClassDefinition{}})}, log.NewNopZapLogger(), 0, false, w.fdb)
+		w.syn = jsync.New(w.bc, viaFeeder{jsync.NewFeederGatewayDataSource(w.bc, &snData{src: w.src, cls: map[felt.Felt]core.ClassDefinition{}})}, log.NewNopZapLogger(), c.poll, false, kv)
 		w.syn.WithListener(&jsync.SelectiveListener{
 			OnSyncStepDoneCb: func(op string, n uint64, _ time.Duration) {
 				if op == jsync.OpStore {
@@ -1394,18 +1648,40 @@ func replay(t *testing.T, c *config, path []evt, converge bool) (res result) {
 			w.viols = nil
 			res.conv, res.convSteps = w.converge()
 		}
-		res.viols, res.infra, res.stats, res.depth = w.viols, w.infra, w.stats, len(path)
 		w.mu.Lock()
 		w.shutdown = true // callbacks fired by the shutdown itself (OpFetch of cancelled fetchers) must not park
 		w.mu.Unlock()
+		// Shutdown at this quiescent point: Run must return once its context is cancelled (every parked listener
+		// callback returns, every outstanding request returns ctx.Err()).
 		cancel()
 		for _, p := range w.parked {
 			p.reply <- reply{}
 		}
-		<-w.done
+		select {
+		case <-w.done:
+		case <-time.After(shutdownHorizon):
+			w.hung = true
+		}
+		if w.hung && w.infra == "" {
+			chainShape := "local-chain-non-empty"
+			if w.headHeight < 0 {
+				chainShape = "local-chain-empty"
+			}
+			polling := "preconfirmed-polling-disabled"
+			if c.poll > 0 {
+				polling = "preconfirmed-polling-enabled"
+			}
+			w.violate("sync-does-not-stop "+chainShape+" "+polling, map[string]any{"virtual_time_waited": shutdownHorizon.String(),
+				"what": "Run has not returned although its context was cancelled at this quiescent point"})
+		}
+		res.viols, res.infra, res.stats, res.depth, res.hung = w.viols, w.infra, w.stats, len(path), w.hung
+		*out = res
+		if w.hung {
+			close(abandoned) // the goroutines of this bubble are left behind
+			<-never
+		}
 		synctest.Wait()
 	})
-	return res
 }
 
 // listenerCall is the body of every sync.EventListener callback: it returns at once unless the explorer armed a hold
